@@ -56,12 +56,14 @@ func registerResolver() {
 	register(&PropSpec{
 		ID: "C01", Pkg: "argmapper",
 		Quick: []Shard{
+			world("HarnessC01", 2, 1, 2, 0, 1, 0, 4), world("HarnessC01", 2, 1, 2, 11, 1, 0, 4),
 			world("HarnessC01", 6, 1, 1, 0, 1, 0, 32), world("HarnessC01", 2, 1, 2, 0, 1, 0, 32), world("HarnessC01", 6, 1, 2, 11, 1, 0, 32),
 			world("HarnessC01", 11, 2, 1, 0, 1, 0), world("HarnessC01", 11, 1, 1, 11, 1, 100),
 			world("HarnessC01", 10, 1, 2, 11, 1, 0), world("HarnessC01", 10, 1, 1, 0, 1, 0),
 			world("HarnessC01", 1, 1, 2, 0, 0, 0), world("HarnessC01", 2, 1, 2, 0, 1, 0), world("HarnessC01", 3, 1, 1, 0, 9, 0), world("HarnessC01", 0, 1, 1, 11, 9, 0), world("HarnessC01", 1, 1, 1, 11, 1, 0), world("HarnessC01", 2, 1, 1, 11, 3, 1), world("HarnessC01", 6, 1, 1, 12, 1, 0, 4), world("HarnessC01", 5, 1, 1, 2111, 0, 0), world("HarnessC01", 100, 0, 0, 0, 1, 0), world("HarnessC01", 101, 0, 0, 0, 9, 0, 2), world("HarnessC01", 102, 0, 0, 0, 1, 0), world("HarnessC01", 103, 0, 0, 0, 1, 0), world("HarnessC01", 104, 0, 0, 0, 0, 0), world("HarnessC01", 106, 0, 0, 0, 1, 0), world("HarnessC01", 1, 1, 1, 11, 3, 0, 8), world("HarnessC01", 3, 1, 1, 0, 9, 0, 24), world("HarnessC01", 0, 1, 1, 11, 9, 0, 16), world("HarnessC01", 9, 1, 1, 11, 1, 0), world("HarnessC01", 108, 0, 0, 0, 1, 0), world("HarnessC01", 109, 0, 0, 0, 1, 0),
 		},
 		Thorough: []Shard{
+			world("HarnessC01", 2, 1, 2, 0, 1, 0, 4), world("HarnessC01", 2, 1, 2, 11, 1, 0, 4),
 			world("HarnessC01", 6, 1, 1, 0, 1, 0, 32), world("HarnessC01", 2, 1, 2, 0, 1, 0, 32), world("HarnessC01", 6, 1, 2, 11, 1, 0, 32),
 			world("HarnessC01", 11, 2, 1, 0, 1, 0), world("HarnessC01", 11, 1, 1, 11, 1, 100), world("HarnessC01", 11, 2, 0, 11, 1, 0), world("HarnessC01", 11, 2, 2, 11, 9, 0),
 			world("HarnessC01", 10, 1, 2, 11, 1, 0), world("HarnessC01", 10, 2, 2, 11, 9, 0), world("HarnessC01", 10, 1, 1, 1111, 1, 0),
@@ -155,10 +157,12 @@ func registerResolver() {
 	})
 	register(&PropSpec{
 		ID: "C05", Pkg: "argmapper", SchedDependent: true,
-		Quick: []Shard{sh("HarnessC05Gen", "generator reacting to the outputs of explicit converters (chain), 2 named values", 0, 2, 0, 1), sh("HarnessC05Gen", "converters from a name-sensitive generator, 2 named values, insertion order", 0, 2, 0, 0), sh("HarnessC05Gen", "generator, 3 named values, flip at Graph.Vertices", 0, 3, 103, 0), sh("HarnessShapes", "statically declared structs: marker last / in the middle, on the only derivation path (Call and Redefine)", 0, 0),
+		Quick: []Shard{
+			world("HarnessC05", 2, 1, 2, 0, 1, 0, 4), world("HarnessC05", 2, 1, 2, 11, 1, 0, 4), sh("HarnessC05Gen", "generator reacting to the outputs of explicit converters (chain), 2 named values", 0, 2, 0, 1), sh("HarnessC05Gen", "converters from a name-sensitive generator, 2 named values, insertion order", 0, 2, 0, 0), sh("HarnessC05Gen", "generator, 3 named values, flip at Graph.Vertices", 0, 3, 103, 0), sh("HarnessShapes", "statically declared structs: marker last / in the middle, on the only derivation path (Call and Redefine)", 0, 0),
 			world("HarnessC05", 0, 1, 1, 11, 1, 102), world("HarnessC05", 0, 1, 1, 1111, 1, 0), world("HarnessC05", 1, 1, 1, 1111, 1, 1), world("HarnessC05", 0, 1, 1, 1121, 1, 0), world("HarnessC05", 101, 0, 0, 0, 9, 0, 2), world("HarnessC05", 104, 0, 0, 0, 0, 100, 2), world("HarnessC05", 106, 0, 0, 0, 1, 0, 2), world("HarnessC05", 5, 1, 1, 2111, 0, 0, 2), world("HarnessC05", 0, 1, 1, 91, 9, 0, 2), world("HarnessC05", 0, 1, 1, 11, 9, 0, 16), world("HarnessC05", 108, 0, 0, 0, 1, 0), world("HarnessC05", 9, 1, 1, 11, 1, 0),
 		},
-		Thorough: []Shard{sh("HarnessC05Gen", "generator reacting to the outputs of explicit converters (chain), 2 named values", 0, 2, 0, 1), sh("HarnessC05Gen", "generator chain, 3 named values, flip at Graph.Vertices", 0, 3, 103, 1), sh("HarnessC05Gen", "converters from a name-sensitive generator, 2 named values, insertion order", 0, 2, 0, 0), sh("HarnessC05Gen", "generator, 3 named values, flip at Graph.Vertices", 0, 3, 103, 0), sh("HarnessC05Gen", "generator, 3 named values, flip product at the path-selection sites", 0, 3, 100, 0), sh("HarnessC05Gen", "generator, 2 named values, seeded orders 1", 0, 2, 1, 0), sh("HarnessC05Gen", "generator, 3 named values, seeded orders 2", 0, 3, 2, 0), sh("HarnessShapes", "statically declared structs: marker last / in the middle, on the only derivation path (Call and Redefine)", 0, 0),
+		Thorough: []Shard{
+			world("HarnessC05", 2, 1, 2, 0, 1, 0, 4), world("HarnessC05", 2, 1, 2, 11, 1, 0, 4), sh("HarnessC05Gen", "generator reacting to the outputs of explicit converters (chain), 2 named values", 0, 2, 0, 1), sh("HarnessC05Gen", "generator chain, 3 named values, flip at Graph.Vertices", 0, 3, 103, 1), sh("HarnessC05Gen", "converters from a name-sensitive generator, 2 named values, insertion order", 0, 2, 0, 0), sh("HarnessC05Gen", "generator, 3 named values, flip at Graph.Vertices", 0, 3, 103, 0), sh("HarnessC05Gen", "generator, 3 named values, flip product at the path-selection sites", 0, 3, 100, 0), sh("HarnessC05Gen", "generator, 2 named values, seeded orders 1", 0, 2, 1, 0), sh("HarnessC05Gen", "generator, 3 named values, seeded orders 2", 0, 3, 2, 0), sh("HarnessShapes", "statically declared structs: marker last / in the middle, on the only derivation path (Call and Redefine)", 0, 0),
 			world("HarnessC05", 0, 1, 1, 11, 1, 102), world("HarnessC05", 0, 1, 1, 1111, 1, 0), world("HarnessC05", 1, 1, 1, 1111, 1, 1), world("HarnessC05", 0, 1, 1, 1121, 1, 0), world("HarnessC05", 101, 0, 0, 0, 9, 0, 2), world("HarnessC05", 104, 0, 0, 0, 0, 100, 2), world("HarnessC05", 106, 0, 0, 0, 1, 0, 2), world("HarnessC05", 5, 1, 1, 2111, 0, 0, 2), world("HarnessC05", 0, 1, 1, 91, 9, 0, 2), world("HarnessC05", 0, 1, 1, 1111, 1, 100), world("HarnessC05", 0, 1, 1, 111111, 1, 0), world("HarnessC05", 3, 1, 1, 11, 0, 0), world("HarnessC05", 3, 1, 0, 1111, 0, 0), world("HarnessC05", 0, 2, 1, 1111, 1, 2), world("HarnessC05", 4, 1, 1, 1111, 1, 0), world("HarnessC05", 5, 1, 2, 211111, 0, 0), world("HarnessC05", 5, 1, 1, 111111, 0, 0, 2), world("HarnessC05", 100, 0, 0, 0, 9, 0, 2), world("HarnessC05", 102, 0, 0, 0, 9, 0, 2), world("HarnessC05", 105, 0, 0, 0, 1, 100), world("HarnessC05", 105, 0, 0, 0, 9, 0),
 		},
 		Covers:   []string{"C05.gen-checked", "C05.shapes-checked", "C05.call-returned", "C05.derivable-world", "C05.converter-used", "C05.stability-checked"},
@@ -301,8 +305,8 @@ func registerResolver() {
 	}
 	register(&PropSpec{
 		ID: "C08", Pkg: "argmapper",
-		Quick:    []Shard{w8("HarnessC08", 1, 1, 1, 0, 1, 2), w8("HarnessC08", 1, 2, 1, 11, 1, 1), w8("HarnessC08", 1, 1, 1, 11, 1, 2), w8("HarnessC08", 5, 1, 1, 1111, 3, 1), w8("HarnessC08", 0, 2, 1, 11, 0, 0), w8("HarnessC08", 8, 1, 1, 11, 1, 4), w8("HarnessC08", 4, 1, 1, 11, 1, 4)},
-		Thorough: []Shard{w8("HarnessC08", 8, 1, 1, 11, 1, 4), w8("HarnessC08", 4, 1, 1, 11, 1, 4), w8("HarnessC08", 0, 1, 1, 11, 9, 4), w8("HarnessC08", 1, 1, 1, 0, 1, 2), w8("HarnessC08", 1, 2, 1, 11, 1, 1), w8("HarnessC08", 1, 1, 1, 11, 1, 2), w8("HarnessC08", 5, 1, 1, 1111, 3, 2), w8("HarnessC08", 0, 2, 1, 11, 0, 0), w8("HarnessC08", 5, 2, 1, 1111, 1, 1), w8("HarnessC08", 5, 1, 0, 111111, 1, 1), w8("HarnessC08", 4, 1, 1, 1111, 1, 1), w8("HarnessC08", 0, 1, 1, 11, 9, 1)},
+		Quick:    []Shard{w8("HarnessC08", 1, 1, 1, 12, 1, 1), w8("HarnessC08", 1, 1, 1, 0, 1, 2), w8("HarnessC08", 1, 2, 1, 11, 1, 1), w8("HarnessC08", 1, 1, 1, 11, 1, 2), w8("HarnessC08", 5, 1, 1, 1111, 3, 1), w8("HarnessC08", 0, 2, 1, 11, 0, 0), w8("HarnessC08", 8, 1, 1, 11, 1, 4), w8("HarnessC08", 4, 1, 1, 11, 1, 4)},
+		Thorough: []Shard{w8("HarnessC08", 1, 1, 1, 12, 1, 1), w8("HarnessC08", 8, 1, 1, 11, 1, 4), w8("HarnessC08", 4, 1, 1, 11, 1, 4), w8("HarnessC08", 0, 1, 1, 11, 9, 4), w8("HarnessC08", 1, 1, 1, 0, 1, 2), w8("HarnessC08", 1, 2, 1, 11, 1, 1), w8("HarnessC08", 1, 1, 1, 11, 1, 2), w8("HarnessC08", 5, 1, 1, 1111, 3, 2), w8("HarnessC08", 0, 2, 1, 11, 0, 0), w8("HarnessC08", 5, 2, 1, 1111, 1, 1), w8("HarnessC08", 5, 1, 0, 111111, 1, 1), w8("HarnessC08", 4, 1, 1, 1111, 1, 1), w8("HarnessC08", 0, 1, 1, 11, 9, 1)},
 		Covers:   []string{"C08.redefine-returned", "C08.redefine-succeeded", "C08.redefined-call-checked", "C08.output-filter-rejection", "C08.library-type-filter"},
 		Bounds:   []string{"worlds restricted (by assumption) to the property's domain: converters with <=1 input, no subtypes, each name one type; <=2 target parameters, <=2 supplied values, chains of <=2 (quick) / 3 (thorough) converters", "input and output filters are uninterpreted predicates: one symbolic Bool per (name,type) asked", "extra=4: the input filter is a symbolic set of the world's types (plus the assignable twin of hList / []int) built from the library's FilterType / FilterOr / FilterAnd; each of its answers is compared with the documented meaning"},
 		Outside:  []string{"multi-input converters, subtypes, names denoting several types (outside the property's domain)", "longer chains"},
